@@ -205,6 +205,8 @@ class Effects:
 
     # ------------------------------------------------------------------ classification
     def classify(self, e: Event, eng: Engine) -> t.Optional[t.Tuple[str, t.Any]]:
+        if e.kind == "call" and getattr(e, "helper", None) is not None:
+            return None  # the call of an extracted helper analysed in place: its body's events are the effects
         if e.kind == "call":
             for f in e.targets:
                 if f.qual in LISTENER_METHODS and not e.sched and not e.coro:
@@ -232,8 +234,9 @@ class Effects:
         while True:
             if cur[0] == "attr":
                 ty = eng.typer.type_of(cur[1])
-                if ty and ty[0] == "cls" and ty[1] in self.prog.classes and self.prog.lookup_method(ty[1], cur[2]) is None:
-                    return (ty[1], cur[2])
+                if ty and ty[0] == "cls" and ty[1] in self.prog.classes and (self.prog.lookup_method(ty[1], cur[2]) is None
+                                                                             or cur[2] in self.prog.forwarders(ty[1]).values()):
+                    return (ty[1], cur[2])  # (a forwarding property presents state of a component as the owner's attribute)
                 cur = cur[1]
                 continue
             if cur[0] in ("item", "slice"):
